@@ -807,7 +807,7 @@ pub fn expand_aliases(doc: &Node) -> Result<Node, ExpandErr> {
             env.len() - 1
         });
         let kind = match &n.kind {
-            Kind::Scalar { .. } => n.kind.clone(),
+            Kind::Scalar { .. } => unanchored_kind(n),
             Kind::Seq { flow, items } => {
                 let mut v = vec![];
                 for it in items {
@@ -835,9 +835,24 @@ pub fn expand_aliases(doc: &Node) -> Result<Node, ExpandErr> {
     go(doc, &mut vec![])
 }
 
+/// The scalar that remains when the anchor mark is removed: an empty plain scalar that carries
+/// only an anchor is rendered as nothing (an omitted node, i.e. null) - without the anchor this
+/// renderer would write `""`, so the anchor-free equivalent is the plain `~`.
+fn unanchored_kind(n: &Node) -> Kind {
+    match &n.kind {
+        Kind::Scalar { value, style: Style::Plain } if value.is_empty() && n.anchor.is_some() && n.tag.is_none() => {
+            Kind::Scalar { value: "~".into(), style: Style::Plain }
+        }
+        k => k.clone(),
+    }
+}
+
 pub fn strip_anchors(doc: &Node) -> Node {
     let mut d = doc.clone();
-    d.visit_mut(&mut |n| n.anchor = None);
+    d.visit_mut(&mut |n| {
+        n.kind = unanchored_kind(n);
+        n.anchor = None
+    });
     d
 }
 
@@ -847,8 +862,17 @@ pub fn same_key(a: &Node, b: &Node) -> bool {
     if a.tag != b.tag {
         return false;
     }
+    // an empty plain scalar with a property is rendered as nothing (`&a` alone): an omitted
+    // node, which the parser reports as `~` when it has no properties - the same (null) key
+    fn text(n: &Node) -> Option<&str> {
+        match &n.kind {
+            Kind::Scalar { value, style: Style::Plain } if value.is_empty() && (n.anchor.is_some() || n.tag.is_some()) => Some("~"),
+            Kind::Scalar { value, .. } => Some(value),
+            _ => None,
+        }
+    }
     match (&a.kind, &b.kind) {
-        (Kind::Scalar { value: x, .. }, Kind::Scalar { value: y, .. }) => x == y,
+        (Kind::Scalar { .. }, Kind::Scalar { .. }) => text(a) == text(b),
         (Kind::Seq { items: x, .. }, Kind::Seq { items: y, .. }) => x.len() == y.len() && x.iter().zip(y).all(|(p, q)| same_key(p, q)),
         (Kind::Map { entries: x, .. }, Kind::Map { entries: y, .. }) => {
             x.len() == y.len() && x.iter().zip(y).all(|((k1, v1), (k2, v2))| same_key(k1, k2) && same_key(v1, v2))
